@@ -75,6 +75,7 @@ TIME_FMTS = [
     ("2D.2M.2Y_2h2m2s", False, True),
     ("2h:2m:2s 2D/2M/4Y", True, False),
     ("2M/2D/4Y 2h:2m:2s.3z", True, False),
+    ("2M/2D/4Y 2h:2m:2s", True, False),
     ("4Y/2M/2D_2h:2m:2s.3z", False, False),
 ]
 TF_INFO = {f: (b, y2) for f, b, y2 in TIME_FMTS}
@@ -373,7 +374,11 @@ ID_ALPHA = "ABCDEFGHJKLMNPQRSTUVWXYZabcdefghkmnpqrstuvwxyz0123456789"
 def gen_id(rng, used, prefix=""):
     while True:
         k = rng.random()
-        if k < 0.25:
+        if k < 0.05:
+            # identifiers of fixed-width exports: padded with blanks on the left or on the right
+            s = prefix + str(rng.randint(0, 99))
+            s = (" " * rng.randint(1, 2) + s) if rng.random() < 0.6 else (s + " " * rng.randint(1, 2))
+        elif k < 0.25:
             s = prefix + str(rng.randint(0, 99999))
         elif k < 0.4:
             s = "".join(rng.choice(ID_ALPHA) for _ in range(rng.randint(1, 3))) + rng.choice(["_", "-", ".", " ", ":"]) + \
@@ -483,6 +488,27 @@ def cases(chunk):
             yield {"steps": [gen_wkt_step(rng)]}
     elif kind == "seq":
         for _ in range(chunk["n"]):
+            if _ % 7 == 3:
+                # two files in one process whose time formats share their layout but not their meaning (day/month
+                # against month/day), holding the SAME TEXTS: the second track's dates are the first one's with day
+                # and month exchanged
+                d_, m_ = rng.sample(range(1, 13), 2)
+                y_ = rng.randint(1971, 2090)
+                base_a = gen.ms_from_fields(y_, m_, d_, rng.randint(0, 22), rng.randint(0, 59), rng.randint(0, 50))
+                base_b = gen.ms_from_fields(y_, d_, m_, *gen.fields_from_ms(base_a)[3:6])
+                steps = []
+                for fmt_, base_ in (("2D/2M/4Y 2h:2m:2s", base_a), ("2M/2D/4Y 2h:2m:2s", base_b)):
+                    st = gen_csv_step(rng, sep=rng.choice([",", ";", "|"]))
+                    st["tfmt"] = fmt_
+                    st["other_fmt"] = "4Y-2M-2D 2h:2m:2s"
+                    nn = len(st["t_ms"])
+                    st["t_ms"] = [base_ + 1000 * k_ for k_ in range(nn)]
+                    st.pop("big", None)
+                    steps.append(st)
+                if rng.random() < 0.5:
+                    steps.reverse()
+                yield {"steps": steps, "twin_formats": 1}
+                continue
             n = rng.randint(3, 6)
             steps = []
             used_fmts = []
